@@ -228,6 +228,17 @@ func c05OpTerm(c *c05Chain, op c05Op, sysfee int64) string {
 		return fmt.Sprintf("(OPolicy 19 %s)", coqZi(op.A))
 	case "setattr":
 		return fmt.Sprintf("(OPolicy %d %s)", 5120+op.N, coqZi(op.A))
+	case "deployother":
+		return "ODeployOther"
+	case "deploy":
+		return fmt.Sprintf("(ODeploy %s)", c05N(op.F))
+	case "cupdate":
+		return fmt.Sprintf("(OUpdate %s)", c05N(op.To))
+	case "cdestroy":
+		return fmt.Sprintf("(ODestroy %s)", c05N(op.To))
+	case "role":
+		role, ks := c01RoleArgs(u, op)
+		return fmt.Sprintf("(ODesignate %s %s)", c05N(role), c05NList(ks))
 	case "wl":
 		return fmt.Sprintf("(OWhitelist %s (Some %s))", c05N(op.To), coqZi(op.A))
 	case "wlrm":
@@ -307,6 +318,8 @@ func c05TxTerms(c *c05Chain, ops []c05Op, b *c05BlockRec) string {
 		op := c05Op{T: "opaque"}
 		if t.Op >= 0 && t.Op < len(ops) {
 			op = ops[t.Op]
+		} else if t.Op == -1 {
+			op = c05Op{T: "deployother"} // the prelude deploys the three callback contracts
 		}
 		tx := b.blk.Transactions[j]
 		csig := "[]"
@@ -387,8 +400,17 @@ func c01CoqCase(c *c05Chain, in c01Input, blocks []*c05BlockRec, obs []*c01Obs) 
 			}
 			ws[j] = fmt.Sprintf("(%d%%N,%d)", a, x.f)
 		}
-		bs[i] = fmt.Sprintf("mkGB %s\n     (mkG %s %s %s %s [%s] [%s])", c05TxTerms(c, in.Ops, b),
-			c05NList(o.Committee), c05NList(o.NextVals), c05NList(o.NewEpoch), c05NList(blocked), strings.Join(pol, ";"), strings.Join(ws, ";"))
+		rs := make([]string, len(o.RoleQ))
+		for j, q := range o.RoleQ {
+			rs[j] = fmt.Sprintf("(%d%%N,%d,%s)", q.Role, q.Index, c05NList(q.Keys))
+		}
+		cs := make([]string, len(o.ContractQ))
+		for j, q := range o.ContractQ {
+			cs[j] = fmt.Sprintf("(%d%%N,(%d,%d))", q.A, q.ID, q.Counter)
+		}
+		bs[i] = fmt.Sprintf("mkGB %s\n     (mkG %s %s %s %s [%s] [%s] [%s] [%s])", c05TxTerms(c, in.Ops, b),
+			c05NList(o.Committee), c05NList(o.NextVals), c05NList(o.NewEpoch), c05NList(blocked), strings.Join(pol, ";"), strings.Join(ws, ";"),
+			strings.Join(rs, ";"), strings.Join(cs, ";"))
 	}
 	return fmt.Sprintf("CGov %s [%s]\n   [%s]", c05CfgTerm(c, in.Proto.HF, fx), strings.Join(restarts, ";"), strings.Join(bs, ";\n    "))
 }
